@@ -234,6 +234,8 @@ class CInterp:
             return self.ex.branch(v.t)
         if isinstance(v, Ptr):
             return v.region is not None
+        if isinstance(v, StructObj):
+            return True
         if isinstance(v, (int, float)):
             return v != 0
         if isinstance(v, SNum):
@@ -954,6 +956,14 @@ class CInterp:
 
     def e_MemberExpr(self, n, env):
         obj = self.expr(n["inner"][0], env)
+        base = self.rv(obj) if isinstance(obj, LRef) else obj
+        if isinstance(base, StructObj):
+            name = n.get("name")
+
+            def setter(v, base=base, name=name):
+                base.fields[name] = v
+                base.writes.append(name)
+            return LRef(lambda base=base, name=name: base.fields[name], setter)
         return ("member", n.get("name"), obj)
 
     def e_CXXMemberCallExpr(self, n, env):
@@ -990,6 +1000,17 @@ class CInterp:
             if name == "back":
                 return LRef(lambda: obj.items[-1], lambda v: obj.items.__setitem__(-1, v))
         raise Unsupported(f"member call {name} on {type(obj).__name__}")
+
+
+class StructObj:
+    """a C struct reached through a pointer: named fields, log of the fields written"""
+
+    def __init__(self, name, **fields):
+        self.name = name
+        self.fields = dict(fields)
+        self.writes = []
+        self.region = self  # so that `if (ptr)` is true
+        self.off = 0
 
 
 class VecIter:
